@@ -16,14 +16,18 @@ from .build import Broken  # noqa: E402
 
 
 class Ctx:
-    def __init__(self, prop, root, tier, seed):
+    def __init__(self, prop, root, tier, seed, config="default", extra_flags=()):
         self.prop = prop
         self.root = os.path.realpath(root)
         self.tier = tier
         self.seed = seed
+        self.config = config
+        self.extra_flags = tuple(extra_flags)
         self._fb = {}
 
-    def fb(self, config="default", extra_flags=()):
+    def fb(self, config=None, extra_flags=None):
+        config = self.config if config is None else config
+        extra_flags = self.extra_flags if extra_flags is None else extra_flags
         k = (config, tuple(extra_flags))
         if k not in self._fb:
             self._fb[k] = facts.load(self.root, config, extra_flags)
@@ -37,11 +41,15 @@ class Ctx:
             return json.load(fh)
 
 
-def run_property(prop, root, tier="quick", seed=0):
+def run_property(prop, root, tier="quick", seed=0, config="default", extra_flags=()):
     mod = importlib.import_module("rules." + prop.lower())
-    ctx = Ctx(prop, root, tier, seed)
+    ctx = Ctx(prop, root, tier, seed, config, extra_flags)
     res = mod.run(ctx)
     return ctx, res
+
+
+# configurations analysed in addition by the thorough tier: packet.cpp has an `#ifdef _DEBUG` branch
+EXTRA_CONFIGS = [("debug", ("-D_DEBUG",))]
 
 
 def main():
@@ -73,12 +81,27 @@ def main():
                     rc = 1
                     print("VIOLATION property=%s replay=%s" % (prop, a.replay))
             return rc
+        extra_cov = {}
+        if a.tier == "thorough":
+            cfgs = []
+            for cname, flags in EXTRA_CONFIGS:
+                _, r2 = run_property(prop, a.root, a.tier, seed, cname, flags)
+                have = {(o["rule"], o["key"]) for o in res.obligations}
+                n_new = 0
+                for o in r2.obligations:
+                    if not o["ok"]:
+                        res.bad(o["rule"], "[%s] %s" % (cname, o["key"]), o["loc"], "configuration %s (%s): %s" % (cname, " ".join(flags), o["detail"]))
+                        n_new += 1
+                cfgs.append({"config": cname, "flags": list(flags), "obligations": len(r2.obligations), "violations": n_new})
+            extra_cov["extra_configurations"] = cfgs
+            from . import crosscheck
+            extra_cov["callgraph_crosscheck"] = crosscheck.run(ctx)
         selftest = None
         if a.tier == "thorough" and not a.no_selftest:
             from . import selftest as st
             selftest = st.run(prop, ctx, res)
         level = getattr(sys.modules["rules." + prop.lower()], "LEVEL", "other")
-        rc = report.finish(res, a.tier, seed, t0, meta, level=level, selftest=selftest)
+        rc = report.finish(res, a.tier, seed, t0, meta, level=level, selftest=selftest, extra_cov=extra_cov)
         if selftest is not None and selftest.get("failed"):
             print("ANALYSIS-BROKEN property=%s self-test failed on a known baseline tree: %s" % (prop, selftest["failed"]))
             return 2 if rc == 0 else rc
